@@ -159,4 +159,112 @@ def gen_communicate(tier, rng):
         FIO.time, FA.time = saved
 
 
-GENS = {'StringIO.communicate': gen_communicate, 'AsynConn.readline': gen_readline, 'AsynConn.readbytes': gen_readbytes}
+def gen_reconnect(tier, rng):
+    """line communicator on a device that can refuse connections, drop an open connection, and come back, in virtual time: three scripted and random
+    histories (length 10..14) of {communicate, wait 1 / 4 / 11 s, device down, device up, drop the open connection}; reconnect interval 10 s;
+    two registered reconnect callbacks; each communicate() call is one evaluated case"""
+    import types
+    import frappy.io as FIO
+    import frappy.lib.asynconn as FA
+    from bounded import nodelib
+    import time as real_time
+    from frappy.errors import CommunicationFailedError
+    C.CommunicationFailedError = CommunicationFailedError
+
+    class Clock:
+        now = 1000.0
+    clock = Clock()
+
+    class VTime:
+        def time(self):
+            return clock.now
+
+        def sleep(self, t):
+            clock.now += max(t, 0)
+
+        def __getattr__(self, name):
+            return getattr(real_time, name)
+
+    world = types.SimpleNamespace(up=True, attempts=[], cb_calls=[], reconnects=0, ever_connected=False, live=None)
+
+    class Dev(FA.AsynConn):
+        scheme = 'verifrc'
+
+        def __init__(self, uri, end_of_line=b'\n', default_settings=None):
+            world.attempts.append(clock.now)
+            if not world.up:
+                raise ConnectionRefusedError('device is down')
+            super().__init__(uri, end_of_line, default_settings)
+            self.timeout = 0.05
+            self.pending = b''
+            self.dropped = False
+            self.connection = True
+            if world.ever_connected:
+                world.reconnects += 1
+            world.ever_connected = True
+            world.live = self
+
+        def send(self, data):
+            if self.dropped or not world.up:
+                raise FA.ConnectionClosed('dropped')
+            self.pending += b'reply-to-' + data.strip() + b'\n'
+
+        def recv(self):
+            if self.dropped or not world.up:
+                raise FA.ConnectionClosed('dropped')
+            data, self.pending = self.pending, b''
+            if not data:
+                clock.now += self.timeout
+            return data
+
+        def flush_recv(self):
+            data, self.pending = self.pending, b''
+            return data
+
+        def disconnect(self):
+            self.connection = None
+
+    saved = (FIO.time, FA.time)
+    FIO.time, FA.time = VTime(), VTime()
+    try:
+        for h in range(60 if tier == 'quick' else 600):
+            world.up, world.attempts, world.cb_calls, world.reconnects, world.ever_connected, world.live = True, [], [], 0, False, None
+            clock.now += 100
+            srv = nodelib.Srv([nodelib.mod('io', FIO.StringIO, uri='verifrc://x', timeout=1.0, pollinterval=10)])
+            io = srv.secnode.modules['io']
+            io.registerReconnectCallback('a', lambda: world.cb_calls.append(0) or True)
+            io.registerReconnectCallback('b', lambda: world.cb_calls.append(1) or True)
+            world.attempts.clear()
+            io.connectStart()
+            world.attempts.clear()      # the connect at start-up is not made on behalf of a communicate() call
+            scripted = [['drop', 'comm', 'wait11', 'comm', 'drop', 'comm', 'wait1', 'comm', 'wait4', 'comm', 'wait11', 'comm'],
+                        ['down', 'comm', 'wait11', 'comm', 'wait1', 'comm', 'up', 'wait4', 'comm', 'wait11', 'comm', 'comm'],
+                        ['drop', 'comm', 'wait11', 'down', 'comm', 'up', 'wait1', 'comm', 'wait11', 'comm', 'drop', 'comm', 'wait4', 'comm']]
+            steps = scripted[h] if h < len(scripted) else [rng.choice(['comm', 'comm', 'comm', 'wait1', 'wait4', 'wait11', 'down', 'up', 'drop'])
+                                                             for _ in range(10)]
+            for step, kind in enumerate(steps):
+                if kind.startswith('wait'):
+                    clock.now += float(kind[4:])
+                    continue
+                if kind == 'down':
+                    world.up = False
+                    continue
+                if kind == 'up':
+                    world.up = True
+                    continue
+                if kind == 'drop':
+                    if world.live is not None:
+                        world.live.dropped = True
+                    continue
+                # what must happen: connected and alive -> the reply; otherwise an error, except that a reconnect may succeed
+                alive = io.is_connected and world.live is not None and not world.live.dropped and world.up
+                may_reconnect = (not io.is_connected) and world.up and clock.now >= (world.attempts[-1] if world.attempts else 0) + io.pollinterval
+                expected = 'reply-to-q?' if alive or may_reconnect else None
+                yield dict(label=f'history {h} step {step}: communicate at t={clock.now - 1000:.1f} up={world.up} connected={bool(io.is_connected)}',
+                           self=io, args={}, call=lambda io=io: io.communicate('q?'),
+                           ghosts={'world': world, 'expected_reply': expected})
+    finally:
+        FIO.time, FA.time = saved
+
+
+GENS = {'IOBase.check_connection': gen_reconnect, 'StringIO.communicate': gen_communicate, 'AsynConn.readline': gen_readline, 'AsynConn.readbytes': gen_readbytes}
